@@ -198,7 +198,7 @@ func (c *conn) do(st *stack.Stack, sc Scenario, tag string, baseline bool) Obs {
 			if r.Custom != "absent" {
 				fmt.Fprintf(&b, "X-Vf-Custom: %s\r\n", r.Custom)
 			}
-			if method == "POST" {
+			if method == "POST" || method == "PATCH" || method == "PUT" {
 				b.WriteString("Content-Length: 0\r\n")
 			}
 		}
